@@ -537,11 +537,22 @@ func (c14) Run(ctx *core.RunCtx) {
 	}
 	// the error distribution of the parameters is not always the default one (every protocol object, also one
 	// obtained by ShallowCopy, samples with it; the noise bounds below are derived from it)
-	if xi := ch.Draw("error-distribution", 4); xi > 0 {
-		xe := []ring.DiscreteGaussian{{Sigma: 0.5, Bound: 2}, {Sigma: 1, Bound: 4}, {Sigma: 6.4, Bound: 38.4}}[xi-1]
+	// ... nor the secret distribution: one run in three has sparse secrets (1 to 3 non-zero coefficients), which
+	// the ephemeral secrets of the relinearization protocol follow (the bound of its noise is then the sparse one)
+	hs := 0
+	if ch.Chance("sparse-secrets", 1, 3) {
+		hs = 1 + ch.Draw("secret-weight", 3)
+	}
+	if xi := ch.Draw("error-distribution", 4); xi > 0 || hs > 0 {
+		xe := []ring.DiscreteGaussian{rlwe.DefaultXe, {Sigma: 0.5, Bound: 2}, {Sigma: 1, Bound: 4}, {Sigma: 6.4, Bound: 38.4}}[xi]
+		var xs ring.DistributionParameters = rlwe.DefaultXs
+		if hs > 0 {
+			xs = ring.Ternary{H: hs}
+			ctx.Count("probe.sparse-secret-distribution", 1)
+		}
 		base := params
-		c := ctx.Cached(fmt.Sprintf("%s/xe%d", spec.Key(), xi), func(*core.Xoshiro) any {
-			pp, err := rlwe.NewParametersFromLiteral(rlwe.ParametersLiteral{LogN: base.LogN(), Q: base.Q(), P: base.P(), Xe: xe, RingType: base.RingType(), NTTFlag: base.NTTFlag()})
+		c := ctx.Cached(fmt.Sprintf("%s/xe%d/h%d", spec.Key(), xi, hs), func(*core.Xoshiro) any {
+			pp, err := rlwe.NewParametersFromLiteral(rlwe.ParametersLiteral{LogN: base.LogN(), Q: base.Q(), P: base.P(), Xe: xe, Xs: xs, RingType: base.RingType(), NTTFlag: base.NTTFlag()})
 			if err != nil {
 				return err
 			}
@@ -925,8 +936,13 @@ func (r *c14Run) checkKey(in *c14Inst, crps []c14CRPs, s, s2 *rlwe.SecretKey, B 
 		skIn = rq.NewPoly()
 		rq.MulCoeffsMontgomery(s.Value.Q, s.Value.Q, skIn)
 		skOut = s.Value
-		// noise of the two-round protocol: s*e0 + e2 + u*e1
-		E = big.NewInt(2*nRing*N*N*B + N*B)
+		// noise of the two-round protocol: s*e0 + e2 + u*e1, with s and u sums of N secrets of the parameters'
+		// distribution (1-norm at most w each)
+		w := nRing
+		if t, ok := params.Xs().(ring.Ternary); ok && t.H > 0 && int64(t.H) < w {
+			w = int64(t.H)
+		}
+		E = big.NewInt(2*w*N*N*B + N*B)
 	case kGKG:
 		skIn = s.Value.Q
 		skOut = params.RingQP().NewPoly()
